@@ -8,7 +8,10 @@
               every direct append, for every rule evaluation the Append calls of its appender
               with their error class (or that no appender was opened because rule.Eval
               failed), and the Append calls of every cleanupStaleSeries appender,
-     c_store  the complete storage contents at the end (every series, every sample).
+     c_store  the complete storage contents at the end (every series, every sample),
+     c_batches for every (re)load, in order, what the real ruleDependencyController.AnalyseRules
+              + concurrentRuleEvalController.SplitGroupIntoBatches make of the group's rules
+              (rule indexes + 1, every batch terminated by 0).
    Transport: primitive 63-bit integers (Coq 8.16 parses decimal Z literals slowly); sample
    values are shifted by 2^23, 0 is the staleness marker.
 
@@ -26,7 +29,8 @@ Record case := mkCase {
   c_tbl : list int;
   c_ops : list (list int);
   c_events : list (list int);
-  c_store : list (list int)
+  c_store : list (list int);
+  c_batches : list (list int)
 }.
 
 (* ---------------------------------------------------------------- decoding
@@ -130,10 +134,17 @@ Definition dec_series (tbl : list lset) (xs : list int) : option (lset * list sa
   | [] => None
   end.
 
+Fixpoint dec_batches (xs : list int) (cur : list nat) : list (list nat) :=
+  match xs with
+  | [] => match cur with [] => [] | _ => [rev cur] end
+  | x :: r => if zi x =? 0 then rev cur :: dec_batches r [] else dec_batches r (Z.to_nat (zi x - 1) :: cur)
+  end.
+
 Record dcase := mkD {
   d_ops : list op;
   d_events : list oevent;
-  d_store : list (lset * list sample)     (* samples in ascending time order *)
+  d_store : list (lset * list sample);    (* samples in ascending time order *)
+  d_batches : list (list (list nat))
 }.
 
 Definition decode (c : case) : option dcase :=
@@ -141,7 +152,7 @@ Definition decode (c : case) : option dcase :=
   match all_some (map (dec_op tbl) (c_ops c)),
         all_some (map (dec_event tbl) (c_events c)),
         all_some (map (dec_series tbl) (c_store c)) with
-  | Some ops, Some evs, Some st => Some (mkD ops evs st)
+  | Some ops, Some evs, Some st => Some (mkD ops evs st (map (fun xs => dec_batches xs []) (c_batches c)))
   | _, _, _ => None
   end.
 
@@ -190,12 +201,18 @@ Definition store_agrees (m : store) (o : list (lset * list sample)) : bool :=
   (length m =? length o)%nat && negb (has_dup (map fst o)) &&
   forallb (fun ls => list_eqb2 sample_eqb (samples m (fst ls)) (rev (snd ls))) o.
 
+(* the batches of every loaded rule list, as the model of SplitGroupIntoBatches computes them *)
+Definition model_batches (ops : list op) : list (list (list nat)) :=
+  flat_map (fun o => match o with OpLoad _ rules _ _ => [split_batches rules] | _ => [] end) ops.
+Definition batches_eqb (a b : list (list nat)) : bool := list_eqb2 (list_eqb2 Nat.eqb) a b.
+
 Definition agree (c : case) : bool :=
   match decode c with
   | None => false
   | Some d =>
       let (s, evs) := run query (d_ops d) in
       list_eqb2 event_eqb evs (d_events d) && store_agrees (s_store s) (d_store d)
+      && list_eqb2 batches_eqb (model_batches (d_ops d)) (d_batches d)
   end.
 
 (* ---------------------------------------------------------------- the property, replayed
@@ -405,12 +422,36 @@ Fixpoint hrun (s : hstate) (ops : list op) (evs : list oevent) : option (hstate 
 
 (* the whole history satisfies the property, every event is accounted for, and the final
    storage contents are exactly the accepted appends *)
+(* position of the batch that contains rule i *)
+Fixpoint batch_pos (bs : list (list nat)) (i : nat) (k : nat) : option nat :=
+  match bs with
+  | [] => None
+  | b :: r => if existsb (Nat.eqb i) b then Some k else batch_pos r i (S k)
+  end.
+
+(* the implementation's batches evaluate a rule strictly after every earlier rule whose name
+   its selector matches, and contain every rule *)
+Definition batches_ok (rules : list rule) (bs : list (list nat)) : bool :=
+  let n := length rules in
+  forallb (fun j =>
+    match nth_error rules j, batch_pos bs j 0 with
+    | Some rj, Some pj =>
+        forallb (fun i => match nth_error rules i, batch_pos bs i 0 with
+                          | Some ri, Some pi => negb (dep_on rj ri) || (pi <? pj)%nat
+                          | _, _ => false
+                          end) (seq 0 j)
+    | _, _ => false
+    end) (seq 0 n).
+
+Definition loaded_rules (ops : list op) : list (list rule) :=
+  flat_map (fun o => match o with OpLoad _ rules _ _ => [rules] | _ => [] end) ops.
+
 Definition holds (c : case) : bool :=
   match decode c with
   | None => false
   | Some d =>
       match hrun ([], []) (d_ops d) (d_events d) with
-      | Some ((st, _), []) => store_agrees st (d_store d)
+      | Some ((st, _), []) => store_agrees st (d_store d) && list_eqb2 batches_ok (loaded_rules (d_ops d)) (d_batches d)
       | _ => false
       end
   end.
